@@ -139,6 +139,35 @@ func freshSlice(v ssa.Value, inProgress map[ssa.Value]bool, depth int) bool {
 		if a, ok := x.X.(*ssa.Alloc); ok {
 			return allocFresh(a, inProgress, depth+1)
 		}
+		// *c.Elements where c is the result of a module function that hands out a container of its own on every
+		// return (left.Copy()): the storage belongs to that new container
+		if ld, ok := x.X.(*ssa.UnOp); ok && ld.Op == token.MUL {
+			if fa, ok := ld.X.(*ssa.FieldAddr); ok {
+				if call, ok := fa.X.(*ssa.Call); ok {
+					callee := call.Call.StaticCallee()
+					if callee == nil || len(callee.Blocks) == 0 || !inModule(callee) || inProgress[callee] {
+						return false
+					}
+					_, field := fieldAddrInfo(fa)
+					rets := returnsOf(callee)
+					for _, ret := range rets {
+						if len(ret.Results) != 1 {
+							return false
+						}
+						ra, ok := ret.Results[0].(*ssa.Alloc)
+						if !ok {
+							return false
+						}
+						fv := storedFieldValue(ra, field)
+						ea, ok := fv.(*ssa.Alloc)
+						if !ok || !allocFresh(ea, inProgress, depth+1) {
+							return false
+						}
+					}
+					return len(rets) > 0
+				}
+			}
+		}
 		return false
 	case *ssa.Const:
 		return x.IsNil() // nil slice: append allocates
